@@ -2,6 +2,7 @@ package main
 
 import (
 	"fmt"
+	"strings"
 	"go/types"
 
 	"golang.org/x/tools/go/ssa"
@@ -16,10 +17,35 @@ func (ex *Exec) loopDirs(li *loopInfo, kind string) []Directive {
 	}
 	for _, d := range ex.fc.Dirs {
 		if d.Loop == li.ord && d.Kind == kind {
+			if strings.Contains(d.Text, "allocs") && ex.entry != nil && ex.entry.allocs == nil {
+				continue // allocation clauses only apply when the ghost counter is tracked
+			}
 			r = append(r, d)
 		}
 	}
 	return r
+}
+
+// loopMayAllocate: does the loop body contain anything that can change the ghost allocation counter?
+func loopMayAllocate(li *loopInfo) bool {
+	for b := range li.blocks {
+		for _, ins := range b.Instrs {
+			switch i := ins.(type) {
+			case *ssa.MakeSlice, *ssa.MakeInterface, *ssa.MakeClosure, *ssa.MakeMap, *ssa.MakeChan:
+				return true
+			case *ssa.Alloc:
+				if i.Heap {
+					return true
+				}
+			case *ssa.Call:
+				if bi, ok := i.Call.Value.(*ssa.Builtin); ok && (bi.Name() == "len" || bi.Name() == "cap") {
+					continue
+				}
+				return true
+			}
+		}
+	}
+	return false
 }
 
 func (ex *Exec) execLoop(li *loopInfo, entry []Edge) []Edge {
@@ -116,7 +142,7 @@ func (ex *Exec) cutLoop(li *loopInfo, entry []Edge, invs []Directive) []Edge {
 		}
 		st.mem[a] = ex.freshLike(fmt.Sprintf("%s.%s", tag, a.Name), st.mem[a], a.Typ)
 	}
-	if st.allocs != nil {
+	if st.allocs != nil && loopMayAllocate(li) {
 		st.allocs = ex.vc.Fresh(tag+".allocs", SInt)
 	}
 	phiH := map[*ssa.Phi]Value{}
